@@ -2,7 +2,7 @@
 
 Request:  (c32 OP FLAG KMODE PROG (INPUTS ...))
   OP    = dc   RemoveDeadCodeTransformer (do_remove_dead_code), FLAG = simp | nosimp  (use_simplify)
-        | cp   ConstantPropagationTransformer (do_constant_propagation, no unrolling), FLAG = plain
+        | cp   ConstantPropagationTransformer (do_constant_propagation), FLAG = plain | unroll (unroll_loops=True, oracle only)
         | uv   do_remove_unused_vars + unused dummy arguments with the call-site arguments, FLAG = all | arrays
   KMODE = k    correspondence case: the program is inside the class the Lean model covers; the response is
                (ok PROG') | (error KIND), compared with the Lean driver's `T_model`
@@ -42,7 +42,7 @@ def apply_real(op, flag, prog):
             rc.do_remove_dead_code(r, use_simplify=(flag == 'simp'))
     elif op == 'cp':
         for r in routines:
-            do_cp(r)
+            do_cp(r, unroll_loops=(flag == 'unroll'))
     elif op == 'uv':
         # the utilities RemoveCodeTransformation.transform_subroutine strings together, callees first
         for r in routines:
@@ -737,6 +737,73 @@ class _CpGen:
         return fir.canon([A('program'), A('kernel')] + units)
 
 
+STRIDE_KINDS = ('asc-negstep', 'desc-posstep', 'prop-bounds-negstep', 'runtime-step-asc', 'prop-posstep-desc',
+                'prop-negstep', 'desc-negstep', 'asc-step2', 'runtime-step-desc', 'asc-nostep')
+
+
+def _stride_loop(rng, kind):
+    """(lo, hi, step, index range stays inside 1..5) of a DO loop of the given family; the first six are zero-trip (the
+    run-time ones for some inputs)"""
+    if kind == 'asc-negstep':            # start <= stop, negative literal stride: no iteration
+        return I(rng.randint(1, 2)), I(rng.randint(3, 5)), ilit(-rng.randint(1, 3))
+    if kind == 'desc-posstep':           # start > stop, positive (or absent) stride: no iteration
+        return I(rng.randint(3, 5)), I(rng.randint(0, 2)), rng.choice([NONE, I(1), I(2)])
+    if kind == 'prop-bounds-negstep':    # bounds known only after propagation (j1 <= j2), negative stride
+        return V('j1'), V('j2'), ilit(-rng.randint(1, 2))
+    if kind == 'runtime-step-asc':       # stride known at run time only: zero-trip iff negative
+        return I(1), I(rng.randint(3, 5)), V(rng.choice(['k1', 'k2']))
+    if kind == 'prop-posstep-desc':      # stride known after propagation, positive, descending bounds
+        return I(rng.randint(3, 5)), I(1), V('j1')
+    if kind == 'prop-negstep':           # stride negative only after propagation: -j1
+        return I(1), I(rng.randint(2, 5)), NEG(V('j1'))
+    if kind == 'desc-negstep':           # executes
+        return I(rng.randint(3, 5)), I(rng.randint(1, 2)), ilit(-rng.randint(1, 2))
+    if kind == 'asc-step2':              # executes
+        return I(1), I(rng.randint(2, 5)), I(rng.randint(2, 3))
+    if kind == 'runtime-step-desc':      # executes iff the stride is negative
+        return V('j2'), V('j1'), V(rng.choice(['k1', 'k2']))
+    return I(1), I(rng.randint(1, 5)), NONE
+
+
+def gen_stride_program(rng):
+    """probes for the loop rule: a scalar that holds a constant before a DO loop (all stride families, half of them
+    zero-trip), is reassigned in the body and read afterwards"""
+    D = lambda x, ty, it='none', dims=(), p=NONE: [A('decl'), A(x), A(ty), A(it), [list(d) for d in dims], p]
+    outs = ['o1', 'o2', 'o3']
+    decls = [D('k1', 'int', 'in'), D('k2', 'int', 'in'), D('a1', 'int', 'inout', [(ilit(1), ilit(5))])] + \
+        [D(o, 'int', 'out') for o in outs] + [D(x, 'int') for x in ('x1', 'x2', 'x3', 'j1', 'j2', 'i1', 'i2')]
+    body = [[A('assign'), V('j1'), I(rng.randint(1, 2))], [A('assign'), V('j2'), I(rng.randint(3, 5))]]
+    kinds = rng.sample(STRIDE_KINDS, 3)
+    for x, o, kind in zip(('x1', 'x2', 'x3'), outs, kinds):
+        lo, hi, st = _stride_loop(rng, kind)
+        c1, c2 = rng.sample(range(0, 9), 2)
+        inner = [[A('assign'), V(x), I(c2)]]
+        r = rng.random()
+        if r < 0.3:
+            inner.insert(0, [A('assign'), IDX('a1', V('i1')), V(x)])       # read before the reassignment
+        elif r < 0.5:
+            inner.append([A('assign'), V(x), BIN('add', V(x), I(1))])
+        elif r < 0.6:
+            inner = [[A('if'), BIN('lt', V('k1'), I(0)), inner, []]]          # conditional reassignment
+        elif r < 0.7:
+            inner = [[A('do'), A('i2'), I(1), I(rng.randint(0, 2)), NONE, inner]]   # nested, maybe zero-trip
+        body.append([A('assign'), V(x), I(c1)])
+        body.append([A('do'), A('i1'), lo, hi, st, inner])
+        body.append([A('assign'), V(o), BIN(rng.choice(['add', 'mul', 'sub']), V(x), rng.choice([V('k2'), I(2), V('j1')]))])
+    u = [A('unit'), A('kernel'), [A(a) for a in ['k1', 'k2', 'a1'] + outs], decls, body]
+    return fir.canon([A('program'), A('kernel'), u])
+
+
+def stride_inputs(rng, prog):
+    """three input sets: negative, positive and arbitrary run-time strides"""
+    ins = fir.gen_inputs(rng, prog, 3, max_extent=5)
+    for row, sign in zip(ins, (-1, 1, None)):
+        for e in row:
+            if str(e[0]) in ('k1', 'k2') and sign is not None:
+                e[1] = fir.encode_val(sign * rng.randint(1, 3))
+    return ins
+
+
 def gen_cp_program(rng, loops=True, extras=True):
     for _ in range(20):
         p = _CpGen(rng, loops, extras).build()
@@ -767,7 +834,7 @@ def dec_req(req):
     if not isinstance(req, list) or len(req) != 6 or str(req[0]) != 'c32':
         raise ValueError('malformed request')
     op, flag, kmode = str(req[1]), str(req[2]), str(req[3])
-    if op not in ('dc', 'cp', 'uv') or kmode not in ('k', 'o', 'kg', 'og') or flag not in ('simp', 'nosimp', 'plain', 'all', 'arrays'):
+    if op not in ('dc', 'cp', 'uv') or kmode not in ('k', 'o', 'kg', 'og') or flag not in ('simp', 'nosimp', 'plain', 'unroll', 'all', 'arrays'):
         raise ValueError('malformed request')
     prog, inputs = req[4], req[5]
     if _h(prog) != 'program' or not isinstance(inputs, list):
@@ -837,10 +904,10 @@ class C32(Prop):
 
     # ------------------------------------------------------------ generation
     def gen(self, rng, tier):
-        n = {'quick': dict(cpk=36, dcl=10, dcs=16, cpw=8, dcw=6, uv=8),
-             'thorough': dict(cpk=300, dcl=60, dcs=110, cpw=60, dcw=45, uv=45),
-             'search': dict(cpk=200, dcl=50, dcs=80, cpw=50, dcw=30, uv=40)}.get(tier, None) or \
-            dict(cpk=36, dcl=10, dcs=16, cpw=8, dcw=6, uv=8)
+        n = {'quick': dict(cpk=36, dcl=10, dcs=16, cpw=8, dcw=6, uv=8, stride=8),
+             'thorough': dict(cpk=300, dcl=60, dcs=110, cpw=60, dcw=45, uv=45, stride=60),
+             'search': dict(cpk=200, dcl=50, dcs=80, cpw=50, dcw=30, uv=40, stride=40)}.get(tier, None) or \
+            dict(cpk=36, dcl=10, dcs=16, cpw=8, dcw=6, uv=8, stride=8)
         g = (lambda k: 'g' if (tier == 'thorough' and k % 10 == 0) else '')
         for k in range(n['cpk']):
             p = gen_cp_program(rng, loops=(k % 3 != 0), extras=(k % 3 == 2))
@@ -867,6 +934,13 @@ class C32(Prop):
         for k in range(n['uv']):
             p = add_unused(rng, fir.gen_program(rng, UV_CFG))
             yield Case(mkreq('uv', 'all' if k % 2 else 'arrays', 'o' + g(k), p, fir.gen_inputs(rng, p, 2)), stream='uv')
+        # loop-rule probes (after every other stream, so that the earlier streams keep their random sequence)
+        for k in range(n['stride']):
+            p = gen_stride_program(rng)
+            ins = stride_inputs(rng, p)
+            yield Case(mkreq('cp', 'plain', 'k' + g(k), p, ins), stream='cp-k-stride')
+            if k % 2 == 0:
+                yield Case(mkreq('cp', 'unroll', 'o', p, ins), stream='cp-o-stride-unroll')
 
     # ------------------------------------------------------------ real code
     def impl(self, req):
